@@ -32,13 +32,18 @@ Record location := { l_host : option N;   (* None: relative Location *)
 Record reply := { rp_id : N; rp_status : N; rp_loc : option location; rp_close : bool }.
 Inductive event := Enq (t : N) | Pass (o : option reply).
 
+(* payload of a request: kind (0 none, 1 body=, 2 data=, 3 fargs=) and an id of its content *)
+Definition payload := (N * N)%type.
+Definition nopay : payload := (0, 0).
 Definition hop := (N * option N)%type.      (* status and request tag of a redirect response *)
 Record entry := { e_status : N; e_tag : option N; e_errored : bool; e_history : list hop;
                   e_target : target;           (* path/qargs of the entry's own request *)
-                  e_targets : list target }.   (* path/qargs of the request of every history hop *)
+                  e_targets : list target;     (* path/qargs of the request of every history hop *)
+                  e_pay : payload }.           (* body/data/fargs in the entry's request dict *)
 
 Inductive witem := WReq (t : N) | WRedir (k : N).
-Record wentry := { w_conn : N; w_https : bool; w_host : N; w_item : witem; w_q : qargs }.
+Record wentry := { w_conn : N; w_https : bool; w_host : N; w_item : witem; w_q : qargs;
+                   w_pay : payload }.   (* body bytes / Content-Type the server received *)
 
 Record cstate := {
   queue : list N;           (* .requests *)
@@ -54,6 +59,7 @@ Record cstate := {
   redirectable : bool;
   rq_method : N;            (* requester.method *)
   rs_method : N;            (* respondent.method *)
+  rq_pay : payload;         (* requester.body / .data / .fargs *)
   qlog : list (N * qargs);  (* per queued tag: the qargs its request dict got in Client.request (append only) *)
   rq_target : target;       (* requester.path / .qargs *)
   rtargets : list target }. (* the requests of the entries in .redirects *)
@@ -61,7 +67,7 @@ Record cstate := {
 Definition init_m (sec rd : bool) (m : N) : cstate :=
   {| queue := []; waited := false; latest := None; responses := []; redirects := [];
      conn := 0; host := 0; https := sec; cut := false; sent := false; wire := []; redirectable := rd;
-     rq_method := m; rs_method := m; qlog := []; rq_target := (false, 0, []); rtargets := [] |}.
+     rq_method := m; rs_method := m; rq_pay := nopay; qlog := []; rq_target := (false, 0, []); rtargets := [] |}.
 Definition init (sec rd : bool) : cstate := init_m sec rd 0.
 
 Definition HEAD : N := 1.
@@ -88,10 +94,10 @@ Definition enq (qof : N -> option qargs) (s : cstate) (t : N) : cstate :=
      redirects := redirects s; conn := conn s; host := host s; https := https s; cut := cut s;
      sent := sent s; wire := wire s; redirectable := redirectable s;
        rq_method := rq_method s; rs_method := rs_method s;
-       qlog := qlog s ++ [(t, match qof t with Some q => q | None => snd (rq_target s) end)]; rq_target := rq_target s; rtargets := rtargets s |}.
+       rq_pay := rq_pay s; qlog := qlog s ++ [(t, match qof t with Some q => q | None => snd (rq_target s) end)]; rq_target := rq_target s; rtargets := rtargets s |}.
 
-Definition on_wire (s : cstate) (it : witem) (q : qargs) : wentry :=
-  {| w_conn := conn s; w_https := https s; w_host := host s; w_item := it; w_q := q |}.
+Definition on_wire (s : cstate) (it : witem) (q : qargs) (py : payload) : wentry :=
+  {| w_conn := conn s; w_https := https s; w_host := host s; w_item := it; w_q := q; w_pay := py |}.
 
 Fixpoint qlookup (l : list (N * qargs)) (t : N) : qargs :=
   match l with [] => [] | (k, q) :: r => if k =? t then q else qlookup r t end.
@@ -99,8 +105,13 @@ Fixpoint qlookup (l : list (N * qargs)) (t : N) : qargs :=
 Definition sent_q (qof : N -> option qargs) (pq : N -> qargs) (s : cstate) (t : N) : qargs :=
   merge (qlookup (qlog s) t) (pq t).
 
+(* Requester.build: no body on GET; otherwise data, else fargs, else body - Client.request always queues all
+   three (None resets), so what is sent is the request's own payload *)
+Definition wire_pay (mof : N -> N) (pay : N -> payload) (t : N) : payload :=
+  if mof t =? 0 then nopay else pay t.
+
 (* serviceRequests + transmit + serviceSends: txbs leaves only while not cut off *)
-Definition pump (mof : N -> N) (qof : N -> option qargs) (pq : N -> qargs) (s : cstate) : cstate :=
+Definition pump (mof : N -> N) (qof : N -> option qargs) (pq : N -> qargs) (pay : N -> payload) (s : cstate) : cstate :=
   if waited s then s else
   match queue s with
   | [] => s
@@ -108,10 +119,10 @@ Definition pump (mof : N -> N) (qof : N -> option qargs) (pq : N -> qargs) (s : 
     {| queue := q; waited := true; latest := Some t; responses := responses s;
        redirects := redirects s; conn := conn s; host := host s; https := https s; cut := cut s;
        sent := negb (cut s);
-       wire := if cut s then wire s else wire s ++ [on_wire s (WReq t) (sent_q qof pq s t)];
+       wire := if cut s then wire s else wire s ++ [on_wire s (WReq t) (sent_q qof pq s t) (wire_pay mof pay t)];
        redirectable := redirectable s;
        rq_method := mof t; rs_method := mof t;
-       qlog := qlog s; rq_target := (false, t, sent_q qof pq s t); rtargets := rtargets s |}
+       rq_pay := pay t; qlog := qlog s; rq_target := (false, t, sent_q qof pq s t); rtargets := rtargets s |}
   end.
 
 (* the response entry is appended with the redirect history, .redirects cleared, .waited cleared *)
@@ -119,11 +130,11 @@ Definition deliver (s : cstate) (st : N) (err cut' : bool) : cstate :=
   {| queue := queue s; waited := false; latest := None;
      responses := responses s ++ [{| e_status := st; e_tag := latest s; e_errored := err;
                                      e_history := redirects s; e_target := rq_target s;
-                                     e_targets := rtargets s |}];
+                                     e_targets := rtargets s; e_pay := rq_pay s |}];
      redirects := []; conn := conn s; host := host s; https := https s; cut := cut';
      sent := false; wire := wire s; redirectable := redirectable s;
        rq_method := rq_method s; rs_method := rs_method s;
-       qlog := qlog s; rq_target := rq_target s; rtargets := [] |}.
+       rq_pay := rq_pay s; qlog := qlog s; rq_target := rq_target s; rtargets := [] |}.
 
 (* serviceResponse on a completely parsed reply *)
 Definition complete (s : cstate) (r : reply) : cstate :=
@@ -140,10 +151,10 @@ Definition complete (s : cstate) (r : reply) : cstate :=
            redirects := redirects s ++ [(rp_status r, latest s)];
            conn := conn s; host := host s; https := https s; cut := cut';
            sent := negb cut';
-           wire := if cut' then wire s else wire s ++ [on_wire s (WRedir (rp_id r)) (l_query l)];
+           wire := if cut' then wire s else wire s ++ [on_wire s (WRedir (rp_id r)) (l_query l) nopay];
            redirectable := redirectable s;
        rq_method := rq_method s; rs_method := rq_method s;
-           qlog := qlog s; rq_target := (true, rp_id r, l_query l); rtargets := rtargets s ++ [rq_target s] |}
+           rq_pay := nopay; qlog := qlog s; rq_target := (true, rp_id r, l_query l); rtargets := rtargets s ++ [rq_target s] |}
       else if https s && negb sec then
         deliver s (rp_status r) true cut'                  (* https -> http refused *)
       else
@@ -152,10 +163,10 @@ Definition complete (s : cstate) (r : reply) : cstate :=
            redirects := redirects s ++ [(rp_status r, latest s)];
            conn := conn s + 1; host := h; https := sec; cut := false; sent := true;
            wire := wire s ++ [{| w_conn := conn s + 1; w_https := sec; w_host := h;
-                                 w_item := WRedir (rp_id r); w_q := l_query l |}];
+                                 w_item := WRedir (rp_id r); w_q := l_query l; w_pay := nopay |}];
            redirectable := redirectable s;
        rq_method := rq_method s; rs_method := rq_method s;
-           qlog := qlog s; rq_target := (true, rp_id r, l_query l); rtargets := rtargets s ++ [rq_target s] |}
+           rq_pay := nopay; qlog := qlog s; rq_target := (true, rp_id r, l_query l); rtargets := rtargets s ++ [rq_target s] |}
     end
   else deliver s (rp_status r) false cut'.
 
@@ -164,19 +175,19 @@ Definition complete (s : cstate) (r : reply) : cstate :=
 Definition readable (s : cstate) (r : reply) : bool :=
   Bool.eqb (no_body (rs_method s) (rp_status r)) (no_body (rq_method s) (rp_status r)).
 
-Definition step (mof : N -> N) (qof : N -> option qargs) (pq : N -> qargs) (s : cstate) (e : event) : cstate :=
+Definition step (mof : N -> N) (qof : N -> option qargs) (pq : N -> qargs) (pay : N -> payload) (s : cstate) (e : event) : cstate :=
   match e with
   | Enq t => enq qof s t
   | Pass o =>
-    let s1 := pump mof qof pq s in
+    let s1 := pump mof qof pq pay s in
     match o with
     | Some r => if waited s1 && sent s1 && readable s1 r then complete s1 r else s1
     | None => s1
     end
   end.
 
-Definition run (mof : N -> N) (qof : N -> option qargs) (pq : N -> qargs) (s : cstate) (evs : list event) : cstate :=
-  fold_left (step mof qof pq) evs s.
+Definition run (mof : N -> N) (qof : N -> option qargs) (pq : N -> qargs) (pay : N -> payload) (s : cstate) (evs : list event) : cstate :=
+  fold_left (step mof qof pq pay) evs s.
 
 (* ---------- observations ---------- *)
 Definition origin (e : entry) : option N :=
@@ -196,16 +207,16 @@ Definition obs := (bool * N * N * N)%type.   (* waited, len(requests), len(respo
 Definition observe (s : cstate) : obs :=
   (waited s, N.of_nat (length (queue s)), N.of_nat (length (responses s)), N.of_nat (length (redirects s))).
 
-Fixpoint run_trace (mof : N -> N) (qof : N -> option qargs) (pq : N -> qargs) (s : cstate) (evs : list event) : cstate * list obs :=
+Fixpoint run_trace (mof : N -> N) (qof : N -> option qargs) (pq : N -> qargs) (pay : N -> payload) (s : cstate) (evs : list event) : cstate * list obs :=
   match evs with
   | [] => (s, [])
   | e :: r =>
-    let s' := step mof qof pq s e in
-    let (sf, tr) := run_trace mof qof pq s' r in
+    let s' := step mof qof pq pay s e in
+    let (sf, tr) := run_trace mof qof pq pay s' r in
     (sf, match e with Pass _ => observe s' :: tr | Enq _ => tr end)
   end.
 
-Record case := { c_https : bool; c_redirectable : bool; c_cmethod : N; c_methods : list (N * N); c_qargs : list (N * option qargs); c_pathq : list (N * qargs);
+Record case := { c_https : bool; c_redirectable : bool; c_cmethod : N; c_methods : list (N * N); c_qargs : list (N * option qargs); c_pathq : list (N * qargs); c_pays : list (N * payload);
                  c_events : list event;
                  c_trace : list obs; c_entries : list entry; c_wire : list wentry }.
 
@@ -215,7 +226,9 @@ Definition hop_eqb (x y : hop) : bool := (fst x =? fst y) && option_eqb N.eqb (s
 Definition q_eqb (x y : qargs) : bool := list_eqb (fun a b => (fst a =? fst b) && (snd a =? snd b)) x y.
 Definition target_eqb (x y : target) : bool :=
   match x, y with (k, i, q), (k', i', q') => Bool.eqb k k' && (i =? i') && q_eqb q q' end.
+Definition pay_eqb (x y : payload) : bool := (fst x =? fst y) && (snd x =? snd y).
 Definition entry_eqb (x y : entry) : bool :=
+  pay_eqb (e_pay x) (e_pay y) &&
   target_eqb (e_target x) (e_target y) && list_eqb target_eqb (e_targets x) (e_targets y) &&
   (e_status x =? e_status y) && option_eqb N.eqb (e_tag x) (e_tag y) &&
   Bool.eqb (e_errored x) (e_errored y) && list_eqb hop_eqb (e_history x) (e_history y).
@@ -223,7 +236,7 @@ Definition witem_eqb (x y : witem) : bool :=
   match x, y with WReq a, WReq b => a =? b | WRedir a, WRedir b => a =? b | _, _ => false end.
 Definition wentry_eqb (x y : wentry) : bool :=
   (w_conn x =? w_conn y) && Bool.eqb (w_https x) (w_https y) && (w_host x =? w_host y) &&
-  witem_eqb (w_item x) (w_item y) && q_eqb (w_q x) (w_q y).
+  witem_eqb (w_item x) (w_item y) && q_eqb (w_q x) (w_q y) && pay_eqb (w_pay x) (w_pay y).
 
 Fixpoint mof_of (l : list (N * N)) (t : N) : N :=
   match l with [] => 0 | (k, m) :: r => if k =? t then m else mof_of r t end.
@@ -231,8 +244,11 @@ Fixpoint mof_of (l : list (N * N)) (t : N) : N :=
 Fixpoint qof_of (l : list (N * option qargs)) (t : N) : option qargs :=
   match l with [] => None | (k, q) :: r => if k =? t then q else qof_of r t end.
 
+Fixpoint pay_of (l : list (N * payload)) (t : N) : payload :=
+  match l with [] => nopay | (k, p) :: r => if k =? t then p else pay_of r t end.
+
 Definition check_case (c : case) : bool :=
-  let (s, tr) := run_trace (mof_of (c_methods c)) (qof_of (c_qargs c)) (qlookup (c_pathq c)) (init_m (c_https c) (c_redirectable c) (c_cmethod c)) (c_events c) in
+  let (s, tr) := run_trace (mof_of (c_methods c)) (qof_of (c_qargs c)) (qlookup (c_pathq c)) (pay_of (c_pays c)) (init_m (c_https c) (c_redirectable c) (c_cmethod c)) (c_events c) in
   list_eqb obs_eqb tr (c_trace c) && list_eqb entry_eqb (responses s) (c_entries c) &&
   list_eqb wentry_eqb (wire s) (c_wire c).
 
@@ -242,11 +258,11 @@ Definition check_case (c : case) : bool :=
    7 redirect on a new connector  8 refused: no Location  9 refused: https -> http
    10 3xx delivered because not redirectable  11 reply whose server then closes *)
 Definition n_branches : nat := 12.
-Definition branch_of (mof : N -> N) (qof : N -> option qargs) (pq : N -> qargs) (s : cstate) (e : event) : list nat :=
+Definition branch_of (mof : N -> N) (qof : N -> option qargs) (pq : N -> qargs) (pay : N -> payload) (s : cstate) (e : event) : list nat :=
   match e with
   | Enq _ => [0%nat]
   | Pass o =>
-    let s1 := pump mof qof pq s in
+    let s1 := pump mof qof pq pay s in
     let p := if waited s then [] else match queue s with [] => [] | _ => [if cut s then 3%nat else 2%nat] end in
     match o with
     | Some r =>
@@ -268,7 +284,7 @@ Definition branch_of (mof : N -> N) (qof : N -> option qargs) (pq : N -> qargs) 
     | None => match p with [] => [1%nat] | _ => p end
     end
   end.
-Fixpoint branches (mof : N -> N) (qof : N -> option qargs) (pq : N -> qargs) (s : cstate) (evs : list event) : list nat :=
-  match evs with [] => [] | e :: r => branch_of mof qof pq s e ++ branches mof qof pq (step mof qof pq s e) r end.
+Fixpoint branches (mof : N -> N) (qof : N -> option qargs) (pq : N -> qargs) (pay : N -> payload) (s : cstate) (evs : list event) : list nat :=
+  match evs with [] => [] | e :: r => branch_of mof qof pq pay s e ++ branches mof qof pq pay (step mof qof pq pay s e) r end.
 Definition case_branches (c : case) : list nat :=
-  branches (mof_of (c_methods c)) (qof_of (c_qargs c)) (qlookup (c_pathq c)) (init_m (c_https c) (c_redirectable c) (c_cmethod c)) (c_events c).
+  branches (mof_of (c_methods c)) (qof_of (c_qargs c)) (qlookup (c_pathq c)) (pay_of (c_pays c)) (init_m (c_https c) (c_redirectable c) (c_cmethod c)) (c_events c).
